@@ -298,6 +298,11 @@ class CHECK(Check):
                           {"tag": "kwsum", "w": None, "ids": None, "a": None, "kw": {"c": [str(3 * int(x)) for x in ids[:n]]}}] + specs[2:]
             c["specs"] = c["specs"][:len(c["names"])]
             c["names"] = c["names"][:len(c["specs"])]
+            if rng.random() < 0.4:    # second shape of F17: the column of a parameter is "y_pred" / "y_true" itself
+                c["names"] = ["y"] + [x for x in c["names"][1:] if x != "y"]
+                c["specs"] = [{"tag": "kwsum", "w": None, "ids": None, "a": None,
+                               "kw": {rng.choice(["pred", "true"]): [str(rng.randint(0, 1)) for _ in range(n)]}}] + \
+                    [self._metric_spec(rng, n, binary, allow_ns=False) for _ in c["names"][1:]]
         return c
 
     def generate(self, rng, tier):
